@@ -2,6 +2,7 @@
 from ..gen import Gen
 from ..unit import run_unit
 from ..units.loop import Loop
+from ..units.numeric import IterateUnit
 
 PROP_FILES = ["props/C02.v"]
 TECHNIQUE = "Coq proof (invariants by induction over arbitrary step-oracle traces) + exact differential correspondence of Solver.solve with a scripted step oracle and virtual clock"
@@ -9,5 +10,5 @@ TECHNIQUE = "Coq proof (invariants by induction over arbitrary step-oracle trace
 
 def run(rep, tier, seed, scratch):
     g = Gen(seed)
-    u = Loop()
-    run_unit(rep, u, u.gen(g, tier), scratch)
+    for u in (IterateUnit(), Loop()):
+        run_unit(rep, u, u.gen(g, tier), scratch)
